@@ -461,6 +461,185 @@ Proof.
     rewrite teid_prefix_read; [reflexivity | exact Ht | lia |]. rewrite Nnat.N2Nat.id. exact Hz.
 Qed.
 
+(* ------------------------------------------------------------------ BGP-LS *)
+Lemma read_tlv16s_nil fuel : read_tlv16s fuel [] = Some [].
+Proof. destruct fuel; reflexivity. Qed.
+
+Lemma enc_tlv16_small t : fst t < 65536 -> blen (snd t) < 65536 ->
+  enc_tlv16 t = [fst t / 256; fst t mod 256; blen (snd t) / 256; blen (snd t) mod 256] ++ snd t.
+Proof.
+  intros Ht Hv. unfold enc_tlv16. change (len (snd t)) with (blen (snd t)). rewrite trunc16_small by exact Hv.
+  rewrite !be16_small_parts by assumption. reflexivity.
+Qed.
+
+Lemma read_tlv16s_concat ts : forall fuel,
+  Forall (fun t => fst t < 65536 /\ blen (snd t) < 65536) ts ->
+  (length (flat_map enc_tlv16 ts) <= fuel)%nat ->
+  read_tlv16s fuel (flat_map enc_tlv16 ts) = Some ts.
+Proof.
+  induction ts as [|[t v] ts IH]; intros fuel Hok Hfuel; cbn [flat_map].
+  - apply read_tlv16s_nil.
+  - inversion Hok as [|? ? [Ht Hv] Hts]; subst. cbn [fst snd] in *.
+    cbn [flat_map] in Hfuel. rewrite (enc_tlv16_small (t, v) Ht Hv) in *. cbn [fst snd app] in *.
+    destruct fuel as [|k]; [cbn in Hfuel; lia|].
+    cbn [read_tlv16s].
+    replace (blen v / 256 * 256 + blen v mod 256) with (blen v) by (rewrite N.mul_comm; apply N.div_mod; lia).
+    rewrite take_app. rewrite IH; [| assumption | cbn [length] in Hfuel; rewrite app_length in Hfuel; lia].
+    replace (t / 256 * 256 + t mod 256) with t by (rewrite N.mul_comm; apply N.div_mod; lia). reflexivity.
+Qed.
+
+Lemma flat_map_tlv_bound (ts : list (N * list N)) n :
+  blen (flat_map enc_tlv16 ts) <= n -> Forall (fun t => blen (snd t) <= n) ts.
+Proof.
+  induction ts as [|t ts IH]; intros H; [constructor|]. cbn [flat_map] in H. rewrite blen_app in H.
+  unfold enc_tlv16 in H at 1. rewrite !blen_app in H. constructor; [lia | apply IH; lia].
+Qed.
+
+Lemma tlvs_ok ts n : tlv_types_ok ts -> blen (flat_map enc_tlv16 ts) <= n -> n < 65536 ->
+  Forall (fun t => fst t < 65536 /\ blen (snd t) < 65536) ts.
+Proof.
+  intros Ht Hb Hn. pose proof (flat_map_tlv_bound ts n Hb) as Hv. unfold tlv_types_ok in Ht.
+  rewrite Forall_forall in *. intros t Hin. split; [apply Ht; exact Hin | specialize (Hv t Hin); lia].
+Qed.
+
+Lemma read_container c l rest :
+  c < 65536 -> tlv_types_ok l -> blen (flat_map enc_tlv16 l) < 65536 ->
+  enc_tlv16 (c, flat_map enc_tlv16 l) ++ rest =
+    [c / 256; c mod 256; blen (flat_map enc_tlv16 l) / 256; blen (flat_map enc_tlv16 l) mod 256] ++ flat_map enc_tlv16 l ++ rest /\
+  read_tlv16s (length (flat_map enc_tlv16 l)) (flat_map enc_tlv16 l) = Some l.
+Proof.
+  intros Hc Ht Hb. split.
+  - rewrite (enc_tlv16_small (c, flat_map enc_tlv16 l)); cbn [fst snd]; [rewrite <- app_assoc; reflexivity | exact Hc | exact Hb].
+  - apply read_tlv16s_concat; [eapply tlvs_ok; [exact Ht | apply N.le_refl | exact Hb] | lia].
+Qed.
+
+Lemma container_ge c l : blen (flat_map enc_tlv16 l) <= blen (ls_container c l).
+Proof.
+  unfold ls_container. generalize (flat_map enc_tlv16 l) as v. intros v.
+  unfold enc_tlv16. cbn [fst snd]. rewrite !blen_app. lia.
+Qed.
+
+Lemma ls_frame ty body rest :
+  ty < 65536 -> blen body < 65536 ->
+  (be16 ty ++ be16 (trunc16 (len body)) ++ body) ++ rest =
+  ty / 256 :: ty mod 256 :: blen body / 256 :: blen body mod 256 :: body ++ rest.
+Proof.
+  intros Ht Hb. change (len body) with (blen body). rewrite trunc16_small by exact Hb.
+  rewrite !be16_small_parts by assumption. cbn [app]. reflexivity.
+Qed.
+
+Lemma rd16_parts n : n / 256 * 256 + n mod 256 = n.
+Proof. rewrite N.mul_comm. symmetry. apply N.div_mod. lia. Qed.
+
+Lemma read_sids_enc s :
+  Forall (fun x => fst x < 65536 /\ blen (snd x) = 16) s ->
+  read_sids (map (fun x => (518, be16 (fst x) ++ [0; 0] ++ snd x)) s) = Some s.
+Proof.
+  induction s as [|[mt sid] s IH]; intros H; [reflexivity|]. inversion H as [|? ? [Hm Hs] Hr]; subst. cbn [fst snd] in *.
+  cbn [map read_sids fst snd N.eqb Pos.eqb].
+  rewrite (takes_fields [2; 2; 16] [be16 mt; [0; 0]; sid] (@nil N));
+    [| cbn [map]; rewrite Hs; reflexivity | cbn [concat]; rewrite ?app_nil_r, <- ?app_assoc; reflexivity].
+  rewrite IH by exact Hr. rewrite rdn_be16 by exact Hm. reflexivity.
+Qed.
+
+Lemma flat_map_map {A} (g : A -> N * list N) (l : list A) :
+  flat_map (fun x => enc_tlv16 (g x)) l = flat_map enc_tlv16 (map g l).
+Proof. induction l as [|x l IH]; [reflexivity|]. cbn [flat_map map]. rewrite IH. reflexivity. Qed.
+
+Lemma read_ls_enc n rest : ls_wf n -> read_ls (enc_ls n ++ rest) = Some (NLs n, rest).
+Proof.
+  intros [Hsz Hwf].
+  (* a descriptor NLRI: type [ty], protocol [p], identifier [i], local descriptors [l], then the TLV list [tl] *)
+  assert (Hdesc : forall ty p i l tl (K : N -> N -> list (N * list N) -> list (N * list N) -> option (nlri * list N)),
+            ty < 65536 -> ls_known ty = true -> p < 256 -> i < 18446744073709551616 -> tlv_types_ok l -> tlv_types_ok tl ->
+            blen (p :: be64 i ++ ls_container 256 l ++ flat_map enc_tlv16 tl) < 65536 ->
+            (forall d, d = ls_container 256 l ++ flat_map enc_tlv16 tl ->
+               match read_tlv16s (length d) d with
+               | Some ((256, lv) :: tl') =>
+                   match read_tlv16s (length lv) lv with Some local => K p i local tl' | None => None end
+               | _ => None end = K p i l tl) /\ True).
+  { intros ty p i l tl K Hty Hk Hp Hi Hl Htl Hb. split; [|exact I]. intros d ->.
+    assert (Hd : blen (ls_container 256 l ++ flat_map enc_tlv16 tl) < 65536).
+    { rewrite blen_cons, blen_app in Hb. lia. }
+    assert (Hc : blen (flat_map enc_tlv16 l) < 65536).
+    { rewrite blen_app in Hd. unfold ls_container in Hd. unfold enc_tlv16 at 1 in Hd. cbn [fst snd] in Hd. rewrite !blen_app in Hd. lia. }
+    change (ls_container 256 l ++ flat_map enc_tlv16 tl) with (flat_map enc_tlv16 ((256, flat_map enc_tlv16 l) :: tl)).
+    rewrite read_tlv16s_concat; [| | lia].
+    - rewrite read_tlv16s_concat; [reflexivity | eapply tlvs_ok; [exact Hl | apply N.le_refl | exact Hc] | lia].
+    - eapply (tlvs_ok _ (blen (flat_map enc_tlv16 ((256, flat_map enc_tlv16 l) :: tl)))); [| apply N.le_refl | exact Hd].
+      constructor; [cbn; lia | exact Htl]. }
+  unfold enc_ls in *.
+  destruct n as [p i l | p i l r k | v6 p i l k | p i l s | ty b].
+  - destruct Hwf as [Hp [Hi Hl]].
+    set (body := p :: be64 i ++ ls_container 256 l) in *.
+    assert (Hb : blen body < 65536) by (rewrite !blen_app in Hsz; change (blen (be16 1)) with 2 in Hsz; change (blen (be16 (trunc16 (len body)))) with 2 in Hsz; lia).
+    rewrite ls_frame by (lia || exact Hb). unfold read_ls. rewrite !rd16_parts, take_app.
+    change (ls_known 1) with true. replace (9 <=? blen body) with true
+      by (symmetry; apply N.leb_le; subst body; rewrite blen_cons, blen_app; change (blen (be64 i)) with 8; lia).
+    cbn [andb]. subst body. cbv beta iota. rewrite (take_app' 8 (be64 i)) by reflexivity. rewrite rdn_be64 by exact Hi.
+    destruct (Hdesc 1 p i l [] (fun p i local tl' => if 1 =? 1 then match tl' with [] => Some (NLs (LsNode p i local), rest) | _ => None end else None)
+                ltac:(lia) eq_refl Hp Hi Hl ltac:(constructor) ltac:(cbn [flat_map]; rewrite app_nil_r; exact Hb)) as [Hd _].
+    specialize (Hd (ls_container 256 l) ltac:(cbn [flat_map]; rewrite app_nil_r; reflexivity)).
+    cbn [N.eqb Pos.eqb] in Hd |- *. exact Hd.
+  - destruct Hwf as [Hp [Hi [Hl [Hr Hk]]]].
+    set (body := p :: be64 i ++ ls_container 256 l ++ ls_container 257 r ++ flat_map enc_tlv16 k) in *.
+    assert (Hb : blen body < 65536) by (rewrite !blen_app in Hsz; change (blen (be16 2)) with 2 in Hsz; change (blen (be16 (trunc16 (len body)))) with 2 in Hsz; lia).
+    assert (Hrc : blen (flat_map enc_tlv16 r) < 65536).
+    { assert (Hbb : blen body = 9 + blen (ls_container 256 l) + blen (ls_container 257 r) + blen (flat_map enc_tlv16 k))
+        by (unfold body; rewrite blen_cons, !blen_app; change (blen (be64 i)) with 8; lia).
+      pose proof (container_ge 257 r) as Hcc.
+      lia. }
+    rewrite ls_frame by (lia || exact Hb). unfold read_ls. rewrite !rd16_parts, take_app.
+    change (ls_known 2) with true. replace (9 <=? blen body) with true
+      by (symmetry; apply N.leb_le; subst body; rewrite blen_cons, blen_app; change (blen (be64 i)) with 8; lia).
+    cbn [andb]. subst body. cbv beta iota. rewrite (take_app' 8 (be64 i)) by reflexivity. rewrite rdn_be64 by exact Hi.
+    destruct (Hdesc 2 p i l ((257, flat_map enc_tlv16 r) :: k)
+                (fun p i local tl' => match tl' with
+                   | (257, rv) :: k' => match read_tlv16s (length rv) rv with Some remote => Some (NLs (LsLink p i local remote k'), rest) | None => None end
+                   | _ => None end)
+                ltac:(lia) eq_refl Hp Hi Hl ltac:(constructor; [cbn; lia | exact Hk]) Hb) as [Hd _].
+    specialize (Hd _ eq_refl). cbn [N.eqb Pos.eqb]. cbn [flat_map] in Hd. fold (ls_container 257 r) in Hd.
+    rewrite Hd. rewrite read_tlv16s_concat; [reflexivity | eapply tlvs_ok; [exact Hr | apply N.le_refl | exact Hrc] | lia].
+  - destruct Hwf as [Hp [Hi [Hl Hk]]].
+    set (ty := if v6 then 4 else 3) in *.
+    assert (Hty : ty = 3 \/ ty = 4) by (subst ty; destruct v6; auto).
+    set (body := p :: be64 i ++ ls_container 256 l ++ flat_map enc_tlv16 k) in *.
+    assert (Hb : blen body < 65536).
+    { rewrite !blen_app in Hsz. change (blen (be16 ty)) with 2 in Hsz. change (blen (be16 (trunc16 (len body)))) with 2 in Hsz. lia. }
+    rewrite ls_frame by (lia || exact Hb). unfold read_ls. rewrite !rd16_parts, take_app.
+    replace (ls_known ty) with true by (destruct Hty as [-> | ->]; reflexivity).
+    replace (9 <=? blen body) with true
+      by (symmetry; apply N.leb_le; subst body; rewrite blen_cons, blen_app; change (blen (be64 i)) with 8; lia).
+    cbn [andb]. subst body. cbv beta iota. rewrite (take_app' 8 (be64 i)) by reflexivity. rewrite rdn_be64 by exact Hi.
+    destruct (Hdesc ty p i l k (fun p i local tl' => Some (NLs (LsPfx v6 p i local tl'), rest))
+                ltac:(lia) ltac:(destruct Hty as [-> | ->]; reflexivity) Hp Hi Hl Hk Hb) as [Hd _].
+    specialize (Hd _ eq_refl).
+    replace (ty =? 1) with false by (destruct Hty as [-> | ->]; reflexivity).
+    replace (ty =? 2) with false by (destruct Hty as [-> | ->]; reflexivity).
+    replace (ty =? 6) with false by (destruct Hty as [-> | ->]; reflexivity).
+    replace (ty =? 4) with v6 by (subst ty; destruct v6; reflexivity).
+    exact Hd.
+  - destruct Hwf as [Hp [Hi [Hl Hs]]].
+    rewrite (flat_map_map (fun x => (518, be16 (fst x) ++ [0; 0] ++ snd x)) s) in *.
+    set (tl := map (fun x : N * list N => (518, be16 (fst x) ++ [0; 0] ++ snd x)) s) in *.
+    set (body := p :: be64 i ++ ls_container 256 l ++ flat_map enc_tlv16 tl) in *.
+    assert (Hb : blen body < 65536).
+    { rewrite !blen_app in Hsz. change (blen (be16 6)) with 2 in Hsz. change (blen (be16 (trunc16 (len body)))) with 2 in Hsz. lia. }
+    rewrite ls_frame by (lia || exact Hb). unfold read_ls. rewrite !rd16_parts, take_app.
+    change (ls_known 6) with true. replace (9 <=? blen body) with true
+      by (symmetry; apply N.leb_le; subst body; rewrite blen_cons, blen_app; change (blen (be64 i)) with 8; lia).
+    cbn [andb]. subst body. cbv beta iota. rewrite (take_app' 8 (be64 i)) by reflexivity. rewrite rdn_be64 by exact Hi.
+    assert (Htl : tlv_types_ok tl).
+    { subst tl. unfold tlv_types_ok. apply Forall_forall. intros t Hin. apply in_map_iff in Hin as [x [<- _]]. cbn. lia. }
+    destruct (Hdesc 6 p i l tl (fun p i local tl' => match read_sids tl' with Some s' => Some (NLs (LsSrv6 p i local s'), rest) | None => None end)
+                ltac:(lia) eq_refl Hp Hi Hl Htl Hb) as [Hd _].
+    specialize (Hd _ eq_refl). cbn [N.eqb Pos.eqb]. rewrite Hd. subst tl. rewrite read_sids_enc by exact Hs. reflexivity.
+  - destruct Hwf as [Hty Hun].
+    assert (Hb : blen b < 65536).
+    { rewrite !blen_app in Hsz. change (blen (be16 ty)) with 2 in Hsz. change (blen (be16 (trunc16 (len b)))) with 2 in Hsz. lia. }
+    rewrite ls_frame by assumption. unfold read_ls. rewrite !rd16_parts, take_app, Hun. reflexivity.
+Qed.
+
 (* ------------------------------------------------------------------ one entry, any structured kind *)
 Lemma read_struct_enc p k n (wd : bool) (nb rest : list N) pid :
   structured k (pid, n) ->
@@ -471,7 +650,7 @@ Proof.
   assert (He' : enc_nlri p n = Ok nb).
   { destruct wd; [|exact He]. destruct n; try exact He; destruct k; contradiction. }
   clear He.
-  destruct k as [v6 vpn | | | | v6m]; destruct n; try contradiction; cbn [read_struct].
+  destruct k as [v6 vpn | | | | v6m | ]; destruct n; try contradiction; cbn [read_struct].
   - destruct Hs as [-> [Hrd [Hwf Hsz]]].
     split; [eapply read_flow_enc; eassumption|].
     cbn [enc_nlri] in He'. apply bind_ok in He' as [body [_ He']]. apply Ok_inj in He'. subst nb.
@@ -484,6 +663,9 @@ Proof.
     split; [apply read_srp_enc; assumption | cbn [app length]; lia].
   - cbn [enc_nlri] in He'. split; [eapply read_mup_enc; eassumption|].
     unfold enc_mup in He'. apply bind_ok in He' as [r [_ He']]. apply Ok_inj in He'. subst nb. cbn [app length]. lia.
+  - cbn [enc_nlri] in He'. apply Ok_inj in He'. subst nb.
+    split; [apply read_ls_enc; exact Hs|]. unfold enc_ls.
+    match goal with |- context [match ?x with LsNode _ _ _ => _ | _ => _ end] => destruct x end; cbn [be16 app length]; lia.
 Qed.
 
 Lemma read_items_nil k fuel ap : read_items k fuel ap [] = Some [].
